@@ -13,9 +13,19 @@
 -/
 import Parsley.Lemmas.LoaderE2EClassic
 import Parsley.Lemmas.LoaderE2EScan
+import Parsley.Lemmas.LoaderE2EStm
+import Parsley.Lemmas.LoaderTwoPass
 namespace Parsley.LoaderE2E
 open Parsley Parsley.Prim Parsley.Obj Parsley.Indirect Parsley.Loader Parsley.C02 Parsley.Spelling
 open Parsley.XrefSpec Parsley.C13 Parsley.LoaderChain
+
+/-- a stream object with a direct /Length as a piece -/
+def WStm.piece (o : WStm) : Piece := ⟨o.bytes, o.num, o.gen, o.val⟩
+
+theorem WStm.piece_reads (o : WStm) (hok : o.OK) (hlen : dictGet keyLength o.kvs = some (.int o.data.length)) :
+    o.piece.Reads := by
+  refine ⟨?_, fun s i post hi hd => reads_stream_direct s i o post hi hd hok hlen⟩
+  simp [WStm.piece, WStm.bytes, WObj.headBytes, kwObj]; omega
 
 /-- a single-revision file with a classic table, as written -/
 structure ClassicFile where
@@ -47,22 +57,14 @@ def bytes (f : ClassicFile) : Bytes := f.garbage ++ f.view
 /-- the objects of the body with their offsets (relative to the header) -/
 def objs (f : ClassicFile) : List (Piece × Nat) := place f.body f.hdr.length
 
-/-- well-formedness of the file for trailer dictionary value `D` and root identifier `root` -/
-structure WF (f : ClassicFile) (D : List (Bytes × Obj)) (root : ObjId) : Prop where
+/-- the part of well-formedness that does not concern the objects: garbage, table syntax, trailer, tail -/
+structure WF0 (f : ClassicFile) (D : List (Bytes × Obj)) (root : ObjId) : Prop where
   /-- the magic `%PDF-` does not occur before the header -/
   noMagic : ∀ k, k < f.garbage.length → kwPdf.isPrefixOf (f.bytes.drop k) = false
-  /-- every object of the body is legally written -/
-  reads : ∀ q ∈ f.body, q.p.Reads
-  /-- identifiers are pairwise distinct -/
-  idsNodup : (f.objs.map fun q => (q.1.num, q.1.gen)).Nodup
   subsNe : f.subs ≠ []
   subsOk : ∀ t ∈ f.subs, subOk t
   /-- the table mentions every object number at most once -/
   numsNodup : ((tableEnts f.subs).map (·.obj)).Nodup
-  /-- the in-use entries of the table, in table order, are the objects of the body in some order,
-      each with its number, generation and offset -/
-  tableObjs : ∃ perm : List (Piece × Nat), perm.Perm f.objs ∧
-    infoOf (tableEnts f.subs) = perm.map fun q => ObjInfo.inFile q.1.num q.1.gen q.2
   wt : WsRun f.wt
   trailer : ∃ d, Spells d (.dict D) f.ttok ∧ d ≤ 51
   root : dictGet kRoot D = some (.ref root.1 root.2)
@@ -82,26 +84,56 @@ structure WF (f : ClassicFile) (D : List (Bytes × Obj)) (root : ObjId) : Prop w
   /-- no further `%%EOF` after the last one -/
   trail : ∀ k, 0 < k → kwEOF.isPrefixOf ((kwEOF ++ f.trail).drop k) = false
 
+/-- well-formedness of the file for trailer dictionary value `D` and root identifier `root`, every
+    object readable in every context (plain objects, streams with a direct /Length) -/
+structure WF (f : ClassicFile) (D : List (Bytes × Obj)) (root : ObjId) : Prop extends WF0 f D root where
+  /-- every object of the body is legally written -/
+  reads : ∀ q ∈ f.body, q.p.Reads
+  /-- identifiers are pairwise distinct -/
+  idsNodup : (f.objs.map fun q => (q.1.num, q.1.gen)).Nodup
+  /-- the in-use entries of the table, in table order, are the objects of the body in some order,
+      each with its number, generation and offset -/
+  tableObjs : ∃ perm : List (Piece × Nat), perm.Perm f.objs ∧
+    infoOf (tableEnts f.subs) = perm.map fun q => ObjInfo.inFile q.1.num q.1.gen q.2
+
+/-- a piece whose reading depends on a length holder: wherever it is written it reads in contexts
+    binding the holder to `len` and fails with InsufficientContext where the holder is undefined -/
+def _root_.Parsley.LoaderE2E.Piece.ReadsDep (p : Piece) (h : ObjId) (len : Int) : Prop :=
+  0 < p.bytes.length ∧
+  ∀ (s : Bytes) (i : Nat) (post : Bytes), i ≤ s.length → s.drop i = p.bytes ++ post →
+    LoaderTwoPass.ReadsDep s (p.item i) h len
+
+/-- well-formedness with streams whose /Length is a reference: `dep p = some (holder, len)` marks them;
+    the holder is a plain object of the same body (written before OR after the stream) whose value is the
+    integer `len` -/
+structure WFfwd (f : ClassicFile) (D : List (Bytes × Obj)) (root : ObjId) (dep : Piece → Option (ObjId × Int)) : Prop
+    extends WF0 f D root where
+  reads : ∀ q ∈ f.body, match dep q.p with
+    | none => q.p.Reads
+    | some (h, len) => q.p.ReadsDep h len
+  holders : ∀ q ∈ f.objs, ∀ h len, dep q.1 = some (h, len) →
+    ∃ q' ∈ f.objs, dep q'.1 = none ∧ (q'.1.num, q'.1.gen) = h ∧ (q'.1.val q'.2).val = .int len
+  idsNodup : (f.objs.map fun q => (q.1.num, q.1.gen)).Nodup
+  tableObjs : ∃ perm : List (Piece × Nat), perm.Perm f.objs ∧
+    infoOf (tableEnts f.subs) = perm.map fun q => ObjInfo.inFile q.1.num q.1.gen q.2
+
 end ClassicFile
 
 theorem drop_two (a b x : Bytes) : (a ++ (b ++ x)).drop (a.length + b.length) = x := by
   rw [← List.append_assoc, ← List.length_append]
   exact List.drop_left' rfl
 
-/-- **`load_classic` (C03, end to end, classic table + direct objects)**: for every well-formed
-    `ClassicFile`, `parse_data` accepts, reports the trailer's root, binds every object of the
-    body to the value that was written, and defines nothing else. -/
-theorem load_classic (f : ClassicFile) (D : List (Bytes × Obj)) (root : ObjId) (h : f.WF D root) :
-    ∃ L : Loaded, parseData f.bytes = .ok L ∧ L.root = root ∧
-      (∀ q ∈ f.objs, ObjStm.defsGet (q.1.num, q.1.gen) L.defs = some (q.1.val q.2).val) ∧
-      (∀ k, (∀ q ∈ f.objs, (q.1.num, q.1.gen) ≠ k) → ObjStm.defsGet k L.defs = none) := by
-  obtain ⟨perm, hperm, htab⟩ := h.tableObjs
+/-- the composition up to the loading stage: whatever the stage establishes about the definitions
+    (for the entries of the table, on the view, from the empty context) holds of the loaded file -/
+theorem load_classic_core (f : ClassicFile) (D : List (Bytes × Obj)) (root : ObjId) (h : f.WF0 D root)
+    (P : ObjStm.Defs → Prop)
+    (hstage : ∀ enc, ∃ defs, parseObjects f.garbage.length ⟨Ctx.new 50, enc⟩ (infoOf (tableEnts f.subs)) f.view = .ok defs ∧ P defs) :
+    ∃ L : Loaded, parseData f.bytes = .ok L ∧ L.root = root ∧ P L.defs := by
   obtain ⟨dT, hsp, hdT⟩ := h.trailer
   have hpdf : kwPdf.isPrefixOf f.hdr = true := by
     rw [List.isPrefixOf_iff_prefix]; exact List.prefix_append _ _
   have hscan := parseData_scan f.garbage f.hdr f.mid f.wsx f.ds f.e f.trail h.noMagic hpdf h.wsx h.wsxNe h.wsxNoS
     h.dsNe h.dsDig h.ofsFits h.e h.trail
-  -- the view and the cursor of the table
   have hview : f.view = f.hdr ++ (bodyBytes f.body ++ (encTable f.subs ++ (kwTrailer ++ (f.wt ++ (f.ttok ++
       (f.gap ++ (kwStartxref ++ (f.wsx ++ (f.ds ++ (f.e ++ (kwEOF ++ f.trail))))))))))) := by
     simp [ClassicFile.view, ClassicFile.mid]
@@ -116,12 +148,39 @@ theorem load_classic (f : ClassicFile) (D : List (Bytes × Obj)) (root : ObjId) 
     simp [encTable, kwXref] at this
   have hx := xrefinfo_classic f.view (digitsVal f.ds 0) f.subs f.wt f.ttok _ dT D (.ref root.1 root.2) hdropT
     h.subsNe h.subsOk h.wt hsp hdT h.noXRefStm h.noPrev h.root h.numsNodup
-  -- the loading stage
-  have hdropB : f.view.drop f.hdr.length = bodyBytes f.body ++ (encTable f.subs ++ (kwTrailer ++ (f.wt ++ (f.ttok ++
-      (f.gap ++ (kwStartxref ++ (f.wsx ++ (f.ds ++ (f.e ++ (kwEOF ++ f.trail)))))))))) := by
-    rw [hview]; exact List.drop_left' rfl
-  have hhl : f.hdr.length ≤ f.view.length := by
-    rw [hview]; simp
+  obtain ⟨defs, hpo, hP⟩ := hstage (dictGet kEncrypt D).isSome
+  refine ⟨⟨defs, root⟩, ?_, rfl, hP⟩
+  show parseData (f.garbage ++ f.view) = _
+  unfold ClassicFile.view
+  rw [hscan]
+  unfold loadRest
+  have hlt' : digitsVal f.ds 0 < (f.hdr ++ (f.mid ++ (kwStartxref ++ (f.wsx ++ (f.ds ++ (f.e ++ (kwEOF ++ f.trail))))))).length := hlt
+  have hx' : getXrefInfo ⟨Ctx.new 50, false⟩ (f.hdr ++ (f.mid ++ (kwStartxref ++ (f.wsx ++ (f.ds ++ (f.e ++ (kwEOF ++ f.trail))))))) (digitsVal f.ds 0) = _ := hx
+  have hpo' : parseObjects f.garbage.length ⟨Ctx.new 50, (dictGet kEncrypt D).isSome⟩ (infoOf (tableEnts f.subs))
+    (f.hdr ++ (f.mid ++ (kwStartxref ++ (f.wsx ++ (f.ds ++ (f.e ++ (kwEOF ++ f.trail))))))) = _ := hpo
+  simp only [hlt', decide_true, Bool.not_true, Bool.false_eq_true, if_false, hx', hpo']
+
+theorem view_body (f : ClassicFile) : f.hdr.length ≤ f.view.length ∧ ∃ rest, f.view.drop f.hdr.length = bodyBytes f.body ++ rest := by
+  have hview : f.view = f.hdr ++ (bodyBytes f.body ++ (encTable f.subs ++ (kwTrailer ++ (f.wt ++ (f.ttok ++
+      (f.gap ++ (kwStartxref ++ (f.wsx ++ (f.ds ++ (f.e ++ (kwEOF ++ f.trail))))))))))) := by
+    simp [ClassicFile.view, ClassicFile.mid]
+  refine ⟨by rw [hview]; simp, (encTable f.subs ++ (kwTrailer ++ (f.wt ++ (f.ttok ++
+      (f.gap ++ (kwStartxref ++ (f.wsx ++ (f.ds ++ (f.e ++ (kwEOF ++ f.trail)))))))))), ?_⟩
+  rw [hview]; exact List.drop_left' rfl
+
+/-- **`load_classic` (C03, end to end, classic table + direct objects)**: for every well-formed
+    `ClassicFile`, `parse_data` accepts, reports the trailer's root, binds every object of the
+    body to the value that was written, and defines nothing else. -/
+theorem load_classic (f : ClassicFile) (D : List (Bytes × Obj)) (root : ObjId) (h : f.WF D root) :
+    ∃ L : Loaded, parseData f.bytes = .ok L ∧ L.root = root ∧
+      (∀ q ∈ f.objs, ObjStm.defsGet (q.1.num, q.1.gen) L.defs = some (q.1.val q.2).val) ∧
+      (∀ k, (∀ q ∈ f.objs, (q.1.num, q.1.gen) ≠ k) → ObjStm.defsGet k L.defs = none) := by
+  refine load_classic_core f D root h.toWF0 (fun defs =>
+    (∀ q ∈ f.objs, ObjStm.defsGet (q.1.num, q.1.gen) defs = some (q.1.val q.2).val) ∧
+    (∀ k, (∀ q ∈ f.objs, (q.1.num, q.1.gen) ≠ k) → ObjStm.defsGet k defs = none)) ?_
+  intro enc
+  obtain ⟨perm, hperm, htab⟩ := h.tableObjs
+  obtain ⟨hhl, rest, hdropB⟩ := view_body f
   have hrb := reads_body f.body f.view f.hdr.length _ hhl hdropB h.reads
   have hmem : ∀ q, q ∈ perm ↔ q ∈ f.objs := fun q => hperm.mem_iff
   have hinfo : infoOf (tableEnts f.subs) = (perm.map itemOf).map C03.Item.info := by
@@ -135,26 +194,120 @@ theorem load_classic (f : ClassicFile) (D : List (Bytes × Obj)) (root : ObjId) 
     intro it hit
     obtain ⟨q, hq, rfl⟩ := List.mem_map.mp hit
     exact hrb q ((hmem q).mp hq)
-  obtain ⟨defs, hpo, hdef, hundef⟩ := C03.load_defines_exactly_partial f.garbage.length (dictGet kEncrypt D).isSome
+  obtain ⟨defs, hpo, hdef, hundef⟩ := C03.load_defines_exactly_partial f.garbage.length enc
     f.view (perm.map itemOf) hnd hread
   rw [← hinfo] at hpo
-  refine ⟨⟨defs, root⟩, ?_, rfl, ?_, ?_⟩
-  · show parseData (f.garbage ++ f.view) = _
-    unfold ClassicFile.view
-    rw [hscan]
-    unfold loadRest
-    have hlt' : digitsVal f.ds 0 < (f.hdr ++ (f.mid ++ (kwStartxref ++ (f.wsx ++ (f.ds ++ (f.e ++ (kwEOF ++ f.trail))))))).length := hlt
-    have hx' : getXrefInfo ⟨Ctx.new 50, false⟩ (f.hdr ++ (f.mid ++ (kwStartxref ++ (f.wsx ++ (f.ds ++ (f.e ++ (kwEOF ++ f.trail))))))) (digitsVal f.ds 0) = _ := hx
-    have hpo' : parseObjects f.garbage.length ⟨Ctx.new 50, (dictGet kEncrypt D).isSome⟩ (infoOf (tableEnts f.subs))
-      (f.hdr ++ (f.mid ++ (kwStartxref ++ (f.wsx ++ (f.ds ++ (f.e ++ (kwEOF ++ f.trail))))))) = _ := hpo
-    simp only [hlt', decide_true, Bool.not_true, Bool.false_eq_true, if_false, hx', hpo']
+  refine ⟨defs, hpo, ?_, ?_⟩
   · intro q hq
-    have := hdef (itemOf q) (List.mem_map_of_mem ((hmem q).mpr hq))
-    exact this
+    exact hdef (itemOf q) (List.mem_map_of_mem ((hmem q).mpr hq))
   · intro k hk
     apply hundef k
     intro it hit
     obtain ⟨q, hq, rfl⟩ := List.mem_map.mp hit
     exact hk q ((hmem q).mp hq)
+
+/-- the entry of the two-pass stage for an object at an offset -/
+def entryOf (dep : Piece → Option (ObjId × Int)) (q : Piece × Nat) : LoaderTwoPass.Entry :=
+  match dep q.1 with
+  | none => .plain (itemOf q)
+  | some (h, _) => .dep (itemOf q) h
+
+theorem entryOf_item (dep : Piece → Option (ObjId × Int)) (q : Piece × Nat) : (entryOf dep q).item = itemOf q := by
+  unfold entryOf
+  split <;> rfl
+
+/-- **`load_classic_fwd` (C03, end to end, classic table, incl. streams with a referenced /Length whose
+    holder is written before or AFTER the stream - the second pass of `parse_objects`)** -/
+theorem load_classic_fwd (f : ClassicFile) (D : List (Bytes × Obj)) (root : ObjId) (dep : Piece → Option (ObjId × Int))
+    (h : f.WFfwd D root dep) :
+    ∃ L : Loaded, parseData f.bytes = .ok L ∧ L.root = root ∧
+      (∀ q ∈ f.objs, ObjStm.defsGet (q.1.num, q.1.gen) L.defs = some (q.1.val q.2).val) ∧
+      (∀ k, (∀ q ∈ f.objs, (q.1.num, q.1.gen) ≠ k) → ObjStm.defsGet k L.defs = none) := by
+  refine load_classic_core f D root h.toWF0 (fun defs =>
+    (∀ q ∈ f.objs, ObjStm.defsGet (q.1.num, q.1.gen) defs = some (q.1.val q.2).val) ∧
+    (∀ k, (∀ q ∈ f.objs, (q.1.num, q.1.gen) ≠ k) → ObjStm.defsGet k defs = none)) ?_
+  intro enc
+  obtain ⟨perm, hperm, htab⟩ := h.tableObjs
+  obtain ⟨hhl, rest, hdropB⟩ := view_body f
+  have hmem : ∀ q, q ∈ perm ↔ q ∈ f.objs := fun q => hperm.mem_iff
+  -- what every piece satisfies wherever it is written
+  have hrb := body_all (fun p s i => match dep p with
+      | none => C03.ReadsAt 0 50 false s (p.item i)
+      | some (hh, len) => LoaderTwoPass.ReadsDep s (p.item i) hh len) f.body f.view f.hdr.length _ hhl hdropB (by
+    intro q hq
+    have hr := h.reads q hq
+    cases hdq : dep q.p with
+    | none => rw [hdq] at hr; exact ⟨hr.1, by simpa [hdq] using hr.2⟩
+    | some x =>
+      obtain ⟨hh, len⟩ := x
+      rw [hdq] at hr
+      exact ⟨hr.1, by simpa [hdq] using hr.2⟩)
+  have hinfo : infoOf (tableEnts f.subs) = (perm.map (entryOf dep)).map fun e => e.item.info := by
+    rw [htab, List.map_map]
+    apply List.map_congr_left
+    intro q _
+    simp only [Function.comp, entryOf_item]
+    rfl
+  have hnd : ((perm.map (entryOf dep)).map fun e => e.item.key).Nodup := by
+    have : ((perm.map (entryOf dep)).map fun e => e.item.key) = perm.map fun q => (q.1.num, q.1.gen) := by
+      rw [List.map_map]
+      apply List.map_congr_left
+      intro q _
+      simp only [Function.comp, entryOf_item]
+      rfl
+    rw [this]
+    exact (hperm.map _).nodup_iff.mpr h.idsNodup
+  have hplain : ∀ it, LoaderTwoPass.Entry.plain it ∈ perm.map (entryOf dep) →
+      it.ofs < f.view.length ∧ C03.ReadsAt 0 50 false f.view it := by
+    intro it hit
+    obtain ⟨q, hq, heq⟩ := List.mem_map.mp hit
+    have hb := hrb q ((hmem q).mp hq)
+    unfold entryOf at heq
+    cases hdq : dep q.1 with
+    | none =>
+      rw [hdq] at heq hb
+      injection heq with heq
+      subst heq
+      exact hb
+    | some x => obtain ⟨hh, len⟩ := x; rw [hdq] at heq; cases heq
+  have hdep : ∀ it hh, LoaderTwoPass.Entry.dep it hh ∈ perm.map (entryOf dep) → it.ofs < f.view.length ∧
+      ∃ len : Int, LoaderTwoPass.ReadsDep f.view it hh len ∧
+        ∃ ht, LoaderTwoPass.Entry.plain ht ∈ perm.map (entryOf dep) ∧ ht.key = hh ∧ ht.v.val = .int len := by
+    intro it hh hit
+    obtain ⟨q, hq, heq⟩ := List.mem_map.mp hit
+    have hb := hrb q ((hmem q).mp hq)
+    unfold entryOf at heq
+    cases hdq : dep q.1 with
+    | none => rw [hdq] at heq; cases heq
+    | some x =>
+      obtain ⟨h', len⟩ := x
+      rw [hdq] at heq hb
+      injection heq with heq1 heq2
+      subst heq1 heq2
+      obtain ⟨q', hq', hd', hk', hv'⟩ := h.holders q ((hmem q).mp hq) h' len hdq
+      refine ⟨hb.1, len, hb.2, itemOf q', ?_, hk', hv'⟩
+      have : entryOf dep q' = .plain (itemOf q') := by unfold entryOf; rw [hd']
+      rw [← this]
+      exact List.mem_map_of_mem ((hmem q').mpr hq')
+  obtain ⟨defs, hpo, hdef, hundef⟩ := LoaderTwoPass.load_two_pass f.garbage.length enc f.view
+    (perm.map (entryOf dep)) hnd hplain hdep
+  rw [← hinfo] at hpo
+  refine ⟨defs, hpo, ?_, ?_⟩
+  · intro q hq
+    have := hdef (entryOf dep q) (List.mem_map_of_mem ((hmem q).mpr hq))
+    rw [entryOf_item] at this
+    exact this
+  · intro k hk
+    apply hundef k
+    intro e he
+    obtain ⟨q, hq, rfl⟩ := List.mem_map.mp he
+    rw [entryOf_item]
+    exact hk q ((hmem q).mp hq)
+
+/-- a stream object whose /Length is the reference `h`, as a dependent piece -/
+theorem WStm.piece_readsDep (o : WStm) (hok : o.OK) (h : ObjId)
+    (hlen : dictGet keyLength o.kvs = some (.ref h.1 h.2)) : o.piece.ReadsDep h o.data.length :=
+  ⟨by simp [WStm.piece, WStm.bytes, WObj.headBytes, kwObj]; omega,
+   fun s i post hi hd => reads_stream_ref s i o post hi hd hok h hlen⟩
 
 end Parsley.LoaderE2E
